@@ -15,7 +15,7 @@ from .. import common, dotparse, e1, space
 ID = 'C20'
 LEVEL = 'model_checking'
 RULE = ('tables: S(12)/S(16) ∪ F; labelings ascending, descending, and (tables up to 9 cells) one '
-        'with blanks, quotes and non-ASCII; three label callbacks; non-trivial = lattice has > 2 '
+        'with blanks, quotes and non-ASCII; four label callbacks (one returning an empty text); non-trivial = lattice has > 2 '
         'concepts and is not a chain; distinct = distinct table')
 ASSUMPTIONS = ['the DOT text is read by an independent parser written from the DOT grammar',
                'labels without backslashes and not of the form <...> (DOT escape / HTML syntax is '
@@ -32,6 +32,7 @@ CALLBACKS = [
     ('default', None),
     ('comma', ','.join),
     ('tag', lambda names: 'L[' + '|'.join(names) + ']'),
+    ('empty-text', lambda names: ''),      # a label whose text is empty is still a label
 ]
 
 
@@ -117,7 +118,7 @@ def node_index(name):
 
 
 def run_shard(shard, tier):
-    res = e1.run_shard_generic(shard, tier, ID, check_case)
+    res = e1.run_shard_generic(shard, tier, ID, check_case, variants=('pickle', 'fromdict-raw'))
     if shard[0] == 'S' and shard[1] * shard[2] <= 9:
         import collections
         ctr = collections.Counter()
